@@ -283,7 +283,8 @@ theorem apply_removed_marked {s s' : St} {o : Op} {id : Nat} {r : Rollapp} {a : 
     rcases markObsolete_unbonds h e id a hps with h1 | h1
     · exact absurd h1 hne
     · exact h1.marked
-  | begin_ dt => simp only [apply] at e; injection e with e; subst e; exact contra (beginBlock_psame s dt)
+
+  | punish au a' rw => exact contra (punish_frame h.core.uniq (punishProposal_ok e).2).psame  | begin_ dt => simp only [apply] at e; injection e with e; subst e; exact contra (beginBlock_psame s dt)
   | end_ f => simp only [apply] at e; injection e with e; subst e; exact contra (endBlock_frame h.core.uniq).psame
 
 end DymVerif.Core.Roles
